@@ -105,9 +105,12 @@ Qed.
 
 Lemma name_ok_routable n : name_ok n = true -> name_routable n = true.
 Proof.
-  destruct n as [|c n]; [discriminate|]. unfold name_ok, name_routable.
+  destruct n as [|c n]; [discriminate|]. unfold name_ok, name_routable, no_slash.
   intros H. apply negb_true_iff in H. apply negb_true_iff. now apply no_unsafe_no_slash.
 Qed.
+
+Lemma name_ok_no_slash n : name_ok n = true -> no_slash n = true.
+Proof. intros H. apply name_ok_routable in H. destruct n; [discriminate|exact H]. Qed.
 
 Theorem req_of_arrives k : wf_call k = true ->
   routed (req_of k) = true /\ call_of (req_of k) = PCall k.
@@ -118,9 +121,9 @@ Proof.
            end;
     try (split; reflexivity);
     try (rewrite (name_ok_routable _ H); split; reflexivity).
-  - (* KLogs *) rewrite (name_ok_routable _ H). unfold call_of; cbn. rewrite H1, H0. split; reflexivity.
+  - (* KLogs *) rewrite (name_ok_no_slash _ H). unfold call_of; cbn. rewrite H1, H0. split; reflexivity.
   - (* KProjectState *) destruct mem; split; reflexivity.
-  - (* KScale *) rewrite (name_ok_routable _ H). unfold call_of; cbn. rewrite H0. split; reflexivity.
+  - (* KScale *) rewrite (name_ok_no_slash _ H). unfold call_of; cbn. rewrite H0. split; reflexivity.
 Qed.
 
 Lemma op_req_of k : r_op (req_of k) = op_of k.
